@@ -294,7 +294,23 @@ export class TypeGen {
       [this.f.records ? 1 : 0, "objrec"],
       [2, "optflip"],
       [this.f.utilities && objNames.length >= 1 ? 2 : 0, "utilmix"],
+      [this.f.namedInter && objNames.length >= 1 ? 3 : 0, "namedshared"],
     ]);
+    if (mode === "namedshared") {
+      // a named object type intersected with an inline object that declares some of the same
+      // properties again, with identical types (the projections of both members must be merged)
+      const n = r.pick(objNames);
+      const d = this.decls.find((x) => x.name === n);
+      const own = d && d.d === "alias" && d.t.k === "obj" ? d.t.props : d && d.d === "iface" ? d.props : null;
+      if (own && own.length) {
+        const exotic = own.filter((q) => ["map", "set", "arr", "obj"].includes(q.t.k));
+        const pool = exotic.length && r.chance(0.7) ? exotic : own;
+        const shared = r.shuffle(pool).slice(0, 1 + r.below(2)).map((q) => ({ ...q, doc: undefined }));
+        const extra = this.props(depth, r.below(2)).map((q) => ({ ...q, name: q.name + "_s" }));
+        const b = A.obj([...shared, ...extra]);
+        return A.inter(r.chance(0.5) ? [A.ref(n), b] : [b, A.ref(n)]);
+      }
+    }
     if (mode === "optflip") {
       // the same key declared in two members with the same or a different type / optionality
       const ps = this.props(depth, 1 + r.below(2));
